@@ -4,6 +4,8 @@ import PepperModel.Constraint
 -/
 namespace Pepper.Constraint
 
+deriving instance DecidableEq for Except
+
 @[simp] theorem expand_length (w : Nat) (parts : List (Mult × Char)) :
     (expand w parts).length = fixedSum parts + w * wildCount parts := by
   induction parts with
